@@ -362,6 +362,7 @@ struct Out {
 
 struct Run {
     stats: BTreeMap<String, u64>,
+    samples: BTreeMap<String, String>,
     fixture: Option<serde_json::Value>,
     fixture_types: BTreeSet<String>,
 }
@@ -388,7 +389,10 @@ impl Run {
                     Err(e) if e.starts_with("encode") => "encode_error",
                     Err(e) if e.contains("invalid type: null") => "written_as_null_then_decode_error",
                     Err(e) if e.starts_with("PANIC") => "panic",
-                    Err(_) => "other_decode_error",
+                    Err(e) => {
+                        self.samples.entry("json_nonfinite_other_decode_error".into()).or_insert_with(|| short(&format!("{:?} through {entry}: {e}", v.ty())));
+                        "other_decode_error"
+                    }
                 };
                 self.bump(&format!("json_nonfinite_{class}"));
                 // ... and the finite twin of the value goes through the JSON entry point instead
@@ -1129,7 +1133,7 @@ pub fn cli(args: &[String]) -> bool {
             let cases = read_cases(&args[2]);
             let mut obs = std::io::BufWriter::new(std::fs::File::create(&args[3]).unwrap());
             let mut orc = std::io::BufWriter::new(std::fs::File::create(&args[4]).unwrap());
-            let mut run = Run { stats: BTreeMap::new(), fixture: None, fixture_types: BTreeSet::new() };
+            let mut run = Run { stats: BTreeMap::new(), samples: BTreeMap::new(), fixture: None, fixture_types: BTreeSet::new() };
             let mut per_key: BTreeMap<String, u64> = BTreeMap::new();
             let mut distinct = BTreeSet::new();
             for (id, lines) in &cases {
@@ -1156,6 +1160,7 @@ pub fn cli(args: &[String]) -> bool {
                 st.insert(k.clone(), serde_json::json!(v));
             }
             st.insert("oracle_failures_by_key".into(), serde_json::json!(per_key));
+            st.insert("samples".into(), serde_json::json!(run.samples));
             if run.fixture.is_some() {
                 let missing: Vec<String> = val::VARIANT_TYPES.iter().map(|t| format!("{t:?}")).filter(|t| !run.fixture_types.contains(t)).collect();
                 st.insert("fixture_types_without_sample".into(), serde_json::json!(missing));
